@@ -7,7 +7,6 @@ use crate::problem::*;
 use crate::rng::Rng;
 use crate::run::*;
 use crate::sc::{widen, Sc};
-use crate::spy::SpyCtl;
 use nalgebra::{DMatrix, DVector};
 use serde_json::json;
 
